@@ -126,6 +126,54 @@ type affCtx struct {
 	depth int
 	// names for values the caller wants to appear under a fixed atom name
 	alias map[ssa.Value]string
+	// when describing the body of an inlined helper: its parameters stand for these forms / descriptions of the caller
+	substForm map[ssa.Value]*affForm
+	substDesc map[ssa.Value]string
+	inlining  int
+}
+
+// inlinable: a same-package, unexported, non-recursive helper with a single return whose result can be described in place.
+func (ac *affCtx) inlinable(call *ssa.Call) (*ssa.Function, bool) {
+	if ac.inlining >= 3 {
+		return nil, false
+	}
+	callee := staticCallee(&call.Call)
+	if callee == nil || !ac.c.isRepoFunc(callee) || len(callee.Blocks) == 0 || callee.Parent() != nil || callee == ac.fn {
+		return nil, false
+	}
+	if strings.HasSuffix(callee.Name(), "$bound") {
+		return nil, false
+	}
+	if callee.Pkg == nil || ac.fn.Pkg == nil || callee.Pkg != ac.fn.Pkg {
+		return nil, false
+	}
+	if obj := callee.Object(); obj == nil || obj.Exported() {
+		return nil, false
+	}
+	if len(returnsOf(callee)) != 1 {
+		return nil, false
+	}
+	// no loops: the result must be an expression of the parameters
+	for _, b := range callee.Blocks {
+		if inLoop(b) {
+			return nil, false
+		}
+	}
+	return callee, true
+}
+
+func (ac *affCtx) child(callee *ssa.Function, call *ssa.Call) *affCtx {
+	ch := &affCtx{c: ac.c, fn: callee, alias: map[ssa.Value]string{}, substForm: map[ssa.Value]*affForm{}, substDesc: map[ssa.Value]string{}, inlining: ac.inlining + 1}
+	for i, p := range callee.Params {
+		if i < len(call.Call.Args) {
+			a := call.Call.Args[i]
+			ch.substDesc[p] = ac.describe(a)
+			if b, ok := a.Type().Underlying().(*types.Basic); ok && b.Info()&types.IsInteger != 0 {
+				ch.substForm[p] = ac.form(a)
+			}
+		}
+	}
+	return ch
 }
 
 func (c *Ctx) affine(fn *ssa.Function, v ssa.Value) *affForm {
@@ -141,6 +189,9 @@ func (ac *affCtx) form(v ssa.Value) *affForm {
 	}
 	if n, ok := ac.alias[v]; ok {
 		return affAtom(n)
+	}
+	if f, ok := ac.substForm[v]; ok {
+		return f
 	}
 	switch x := v.(type) {
 	case *ssa.Const:
@@ -179,6 +230,13 @@ func (ac *affCtx) form(v ssa.Value) *affForm {
 			return affScale(ac.form(x.X), -1)
 		}
 	case *ssa.Call:
+		if callee, ok := ac.inlinable(x); ok {
+			if rv, ok := singleReturn(callee, 0); ok && callee.Signature.Results().Len() == 1 {
+				if b, isB := rv.Type().Underlying().(*types.Basic); isB && b.Info()&types.IsInteger != 0 {
+					return ac.child(callee, x).form(rv)
+				}
+			}
+		}
 		// a repo function applied to constants only folds to a constant (e.g. note.Octave(1).Semitone() = 12)
 		if callee := staticCallee(&x.Call); callee != nil && ac.c.isRepoFunc(callee) && len(x.Call.Args) > 0 {
 			var args []fval
@@ -212,6 +270,9 @@ func (ac *affCtx) describe(v ssa.Value) string {
 	}
 	if n, ok := ac.alias[v]; ok {
 		return n
+	}
+	if d, ok := ac.substDesc[v]; ok {
+		return d
 	}
 	switch x := v.(type) {
 	case *ssa.Parameter:
@@ -284,6 +345,11 @@ func (ac *affCtx) describe(v ssa.Value) string {
 	case *ssa.Extract:
 		return fmt.Sprintf("%s#%d", ac.describe(x.Tuple), x.Index)
 	case *ssa.Call:
+		if callee, ok := ac.inlinable(x); ok && callee.Signature.Results().Len() == 1 {
+			if rv, ok := singleReturn(callee, 0); ok {
+				return ac.child(callee, x).describe(rv)
+			}
+		}
 		var args []string
 		if x.Call.IsInvoke() {
 			args = append(args, ac.describe(x.Call.Value))
